@@ -158,6 +158,20 @@ def short(s, n=300):
     return s if len(s) <= n else s[: n - 3] + "..."
 
 
+def _smt_sym(name):
+    return name if re.fullmatch(r"[A-Za-z_][A-Za-z0-9_.]*", name) else "|" + name + "|"
+
+
+def _smt_lit(v):
+    if isinstance(v, bool):
+        return "true" if v else "false"
+    if isinstance(v, int):
+        return str(v) if v >= 0 else f"(- {-v})"
+    if isinstance(v, bytes):
+        v = v.decode("latin-1")
+    return '"' + "".join(ch if 32 <= ord(ch) < 127 and ch not in '"\\' else ('""' if ch == '"' else "\\u{%x}" % ord(ch)) for ch in v) + '"'
+
+
 def run_property(pid, tier="quick", seed=0, only=None, verbose=False):
     t0 = time.time()
     sys.path.insert(0, VERIF)
@@ -213,7 +227,7 @@ def run_property(pid, tier="quick", seed=0, only=None, verbose=False):
             counts[kind] = k + 1
             name = f"{pid}/{c.target}/{c.id}/{kind}#{k}"
             meta[name] = {"contract": c, "descr": descr, "line": lineno, "kind": kind}
-            jobs.append((name, smt2, timeout_ms, getattr(c, "prefer", None)))
+            jobs.append((name, smt2, max(timeout_ms, getattr(c, "timeout_ms", None) or 0), getattr(c, "prefer", None)))
         for k, (kind, descr, lineno) in enumerate(ex["trivial"]):
             name = f"{pid}/{c.target}/{c.id}/{kind}#t{k}"
             meta[name] = {"contract": c, "descr": descr, "line": lineno, "kind": kind, "trivial": True}
@@ -245,6 +259,48 @@ def run_property(pid, tier="quick", seed=0, only=None, verbose=False):
         print(f"TRACE discharged in {time.time() - t_solve:.1f}s", file=sys.stderr, flush=True)
     t_solve = time.time() - t_solve
     by_name = {r["name"]: r for r in results}
+
+    # ---- unknown obligations: help the solver towards a counterexample by fixing the inputs to the contract's
+    #      ``witness_inputs`` (all assumptions kept: a model found this way is a genuine model of pc /\ not goal;
+    #      'unsat' under a fixed input says nothing and is ignored) ------------------------------------------
+    retry = []
+    for name, m in meta.items():
+        if m.get("trivial") or by_name[name]["verdict"] in ("unsat", "sat"):
+            continue
+        wi = getattr(m["contract"], "witness_inputs", None)
+        if not wi:
+            continue
+        smt2 = next((j[1] for j in jobs if j[0] == name), None)
+        for k, w in enumerate(wi):
+            fixed = "".join(f"(assert (= {_smt_sym(var)} {_smt_lit(val)}))\n" for var, val in w.items())
+            pos = smt2.rfind("(check-sat)")
+            retry.append((f"{name}@input{k}", smt2[:pos] + fixed + smt2[pos:], 20000))
+    if retry:
+        for r2 in solve_all(retry):
+            base = r2["name"].rsplit("@input", 1)[0]
+            if r2["verdict"] == "sat" and by_name[base]["verdict"] != "sat":
+                r2 = dict(r2, name=base, backend=r2["backend"] + " (inputs fixed to a contract witness candidate)")
+                r2["attempts"] = by_name[base].get("attempts", []) + r2.get("attempts", [])
+                by_name[base] = r2
+
+    # ---- obligations the solvers leave open, in a contract that carries a replay hook: run the hook's bounded search
+    #      on the REAL code against the concrete spec; a failing input is a genuine violation and is reported under the
+    #      first open obligation (the others stay undecided).  No failing input -> still undecided, never a violation.
+    open_by_contract = {}
+    for name, m in meta.items():
+        if not m.get("trivial") and by_name[name]["verdict"] not in ("unsat", "sat") and isinstance(m["contract"], Contract):
+            open_by_contract.setdefault(m["contract"].id, []).append(name)
+    for cid, names in open_by_contract.items():
+        c = meta[names[0]]["contract"]
+        if getattr(c, "replay", None):
+            try:
+                res = c.replay({}, {"name": names[0]})
+            except Exception as err:
+                res = {"reproduced": False, "error": f"{type(err).__name__}: {err}"}
+            if res.get("reproduced"):
+                old = by_name[names[0]]
+                by_name[names[0]] = {"name": names[0], "verdict": "sat", "backend": "replay search on the real code (solvers answered unknown)", "s": old.get("s", 0.0),
+                                     "model": {}, "attempts": old.get("attempts", [])}
 
     discharged = []
     refuted = []
